@@ -28,7 +28,7 @@
    CPython does" in both places): bytes.strip = Socket.strip, int(b, 16) = Socket.int16, BytesIO.readline = Reader.upto_lf. *)
 From Coq Require Import ZArith NArith List String Bool PrimFloat.
 From Coq.Strings Require Import Byte.
-From PyRtcm Require Import Base.Bytes Base.Dec Model.Types Model.Reader Model.Socket Model.Message.
+From PyRtcm Require Import Base.Bytes Base.Dec Model.Types Model.Reader Model.Socket Model.Message Model.Helpers.
 Import ListNotations.
 Open Scope string_scope.
 Open Scope Z_scope.
@@ -78,6 +78,9 @@ Inductive builtin :=
 | BSplit                    (* x.split(sep) for a one-character sep *)
 | BIntStr                   (* int(x) for a str of decimal digits, or an int *)
 | BIsTuple | BIsInt         (* isinstance(x, tuple) / isinstance(x, int) *)
+(* ---- added for rtcmhelpers.att2idx / att2name / datadesc ---- *)
+| BIntPy                    (* int(x) on a str as CPython parses it (Helpers.py_int: digits, else ValueError; exotic spellings unmodelled) *)
+| BRsplit1                  (* x.rsplit(sep, 1) for a one-character sep *)
 | BText.                    (* an f-string / string used as message text: parts evaluated, value not modelled *)
 
 Record callsig := { c_name : string; c_kw : list string }.   (* environment callee; names of the keyword arguments, in order *)
@@ -111,7 +114,8 @@ Inductive expr :=
 | EDictEmpty                               (* {} *)
 | EListAppend (x:string) (v:expr)          (* x.append(v) for a local x holding a list *)
 | EListPop (x:string)                      (* x.pop() *)
-| EMethGet (obj k d:expr).                 (* obj.get(k, d) on a dict, or on a table of the environment *)
+| EMethGet (obj k d:expr)                  (* obj.get(k, d) on a dict, or on a table of the environment *)
+| ETupleRange (x:string) (lo hi:expr) (body:expr).   (* tuple(body for x in range(lo, hi)): x is local to the comprehension *)
 
 Inductive target := TVar (x:string) | TSelf (a:string) | TTuple (l:list target).
 
@@ -338,6 +342,16 @@ Fixpoint split_char (c:Ascii.ascii) (t:string) : list string :=
                   else match split_char c r with [] => [String a EmptyString] | h::tl => String a h :: tl end
   end.
 
+(* t.rsplit(c, 1): (text before the LAST c, text after it), None when c does not occur *)
+Fixpoint rsplit1_char (c:Ascii.ascii) (t:string) : option (string * string) :=
+  match t with
+  | EmptyString => None
+  | String a r => match rsplit1_char c r with
+                  | Some (h, tl) => Some (String a h, tl)
+                  | None => if Ascii.eqb a c then Some (EmptyString, r) else None
+                  end
+  end.
+
 Definition builtin_val (f:builtin) (args:list val) : res val :=
   match f, args with
   | BLen, [VBytes b] => ROk (VInt (Z.of_nat (List.length b)))
@@ -375,6 +389,14 @@ Definition builtin_val (f:builtin) (args:list val) : res val :=
   | BIntStr, [VInt z] => ROk (VInt z)
   | BIntStr, [VStr t] => match N_of_str t with Some n => ROk (VInt (Z.of_N n)) | None => RFail (FUnmodelled "int() of a str that is not plain digits") end
   | BIntStr, [_] => RFail (FUnmodelled "int()")
+  | BIntPy, [VInt z] => ROk (VInt z)
+  | BIntPy, [VStr t] => match py_int t with
+                        | PVal n => ROk (VInt (Z.of_N n)) | PValueError => RExc "ValueError"
+                        | PUnmodelled => RFail (FUnmodelled "int() of an exotic spelling") end
+  | BIntPy, [_] => RFail (FUnmodelled "int()")
+  | BRsplit1, [VStr t; VStr (String c EmptyString)] =>
+      ROk (VList (match rsplit1_char c t with Some (h, tl) => [VStr h; VStr tl] | None => [VStr t] end))
+  | BRsplit1, [_; _] => RFail (FUnmodelled "rsplit")
   | BIsTuple, [VUnbound] | BIsInt, [VUnbound] => RFail (FUnmodelled "isinstance of unbound")
   | BIsTuple, [v] => ROk (VBool (match v with VTuple _ => true | _ => false end))
   | BIsInt, [v] => ROk (VBool (match v with VInt _ | VBool _ => true | _ => false end))
@@ -648,6 +670,28 @@ Fixpoint eval (e:expr) (s:state) {struct e} : res val * state :=
                   end
               | other => other end
           | other => other end
+      | other => other
+      end
+  | ETupleRange x elo ehi body =>
+      match eval elo s with
+      | (ROk (VInt lo), s1) =>
+          match eval ehi s1 with
+          | (ROk (VInt hi), s2) =>
+              (* the comprehension's own scope: x is bound for the body only; the outer value of x (if any) is restored afterwards *)
+              let old := lookup x (locals s2) in
+              let comp := fix go (is:list Z) (acc:list val) (s:state) {struct is} : res val * state :=
+                match is with
+                | [] => (ROk (VTuple (rev acc)), s)
+                | i::r => match eval body (set_locals ((x, VInt i) :: locals s) s) with
+                          | (ROk v, s') => go r (v::acc) (set_locals (tl (locals s')) s')
+                          | (RExc c, s') => (RExc c, set_locals (tl (locals s')) s')
+                          | (RFail f, s') => (RFail f, set_locals (tl (locals s')) s')
+                          end
+                end in
+              comp (map (fun k => lo + Z.of_nat k) (seq 0 (Z.to_nat (hi - lo)))) [] s2
+          | (ROk _, s2) => (RFail (FUnmodelled "range bound"), s2)
+          | other => other end
+      | (ROk _, s1) => (RFail (FUnmodelled "range bound"), s1)
       | other => other
       end
   end.
